@@ -258,7 +258,17 @@ def main(tier):
             smart = r.random() < 0.5
             try:
                 _res, total, pops = stepcount.measure(
-                    lambda: list((layout_smart if smart else layout_fast)(real, width=w, ribbon_frac=1.0)))
+                    lambda: list((layout_smart if smart else layout_fast)(real, width=w, ribbon_frac=1.0)), limit=BUDGET)
+            except stepcount.StepBudgetExceeded:
+                # a document of at most 30 nodes: the unchanged engine needs a few thousand steps
+                viol += 1
+                run.count(1)
+                if viol <= 6:
+                    run.violation({'kind': 'engine-steps', 'document': docgen.to_sexp(d), 'term': d, 'smart': smart, 'width': w,
+                                   'steps': '>%d' % BUDGET,
+                                   'detail': 'laying out a document of %d nodes at width %d did not end within %d steps'
+                                             % (docgen.size(d), w, BUDGET)})
+                continue
             except Exception:
                 continue
             run.count(1)
@@ -295,6 +305,17 @@ def replay(path):
     with open(path) as f:
         p = json.load(f)
     print(json.dumps(p, indent=1)[:2000])
+    if p.get('kind') == 'engine-steps':
+        import enginecheck as EC
+        from prettyprinter.layout import layout_smart, layout_fast
+        real = docgen.to_real(EC.detuple(p['term']))
+        try:
+            stepcount.measure(lambda: list((layout_smart if p['smart'] else layout_fast)(real, width=p['width'], ribbon_frac=1.0)),
+                              limit=BUDGET)
+        except stepcount.StepBudgetExceeded:
+            print('did not finish within', BUDGET, 'steps')
+            return 1
+        return 0
     if 'family' not in p:
         return 1
     mk, ns = FAMILIES[p['family']]
